@@ -18,8 +18,8 @@ func init() {
 		ID: "C13", Section: "4 C13",
 		Technique: "sentinel-guard census, cross-reference closure rule on ServerDataConf.check, nil-before-dereference analysis for optional (pointer-typed) JSON config fields and container elements against the facts established by the *Check functions, error-discipline rule on loaders",
 		Meta: core.Meta{
-			Level: "other",
-			Explanation: "Decides: (a) sentinel consistency — every ClusterTable.Lookup whose argument is a basic route rule's ClusterName is guarded by a comparison with route_rule_conf.AdvancedMode, so the documented ADVANCED_MODE target is not treated as a missing cluster; (b) closure — ServerDataConf.check ranges over all products of the advanced table and of the basic tree and over all rules of both tables, each lookup is unconditional (guarded only by loop conditions and the sentinel test) and a miss returns an error; LoadServerDataConf returns success only after check(); (c) crash-freedom for absent optional fields — every dereference, in the loading packages, of a pointer-typed field of a config struct declared under bfe_config/ (or of a pointer element of a config container) is either dominated by a nil test of that value in the same function or covered by a fact established in a *Check function of the declaring package: a test `field == nil` that returns an error or assigns a default and lies on every success path of that Check; and every loader that decodes a config calls its Check before a success return; (d) error discipline — the error results of Decode/Unmarshal, *Check, condition.Build and nested *Load calls in the loaders are returned or tested, never dropped. Not covered: acceptance of every documented file (only the ADVANCED_MODE feature is tied to the docs), malformed JSON beyond absent/null fields, index-out-of-range on malformed lists, vip-to-product references.",
+			Level:       "other",
+			Explanation: "Decides: (a) sentinel consistency — every ClusterTable.Lookup whose argument is a basic route rule's ClusterName (directly, or through the parameter of a private helper all of whose call sites pass one) is guarded by a comparison with route_rule_conf.AdvancedMode in any spelling or polarity, so the documented ADVANCED_MODE target is not treated as a missing cluster; (b) closure — ServerDataConf.check (with its private helpers and closures) ranges over all products of the advanced table and of the basic tree and over all rules of both tables, each lookup is unconditional (guarded only by loop conditions, the sentinel test and early rejects whose other edge cannot reach a success return) and a miss makes check return an error (through the helper's error result if the lookup sits in a helper); a product of the advanced table or basic tree that equals no hostTagTable entry is rejected, the membership test being recognised by role (a flag or helper result that is true only where the product was compared equal to a hostTagTable element); LoadServerDataConf returns success only after check(); (c) crash-freedom for absent optional fields — every dereference, in the loading packages, of a pointer-typed field of a config struct declared under bfe_config/ (or of a pointer element of a config container) is either dominated by a nil test of that value in the same function or covered by a fact established in a *Check function of the declaring package: a nil test (== or !=, either operand order) after whose nil edge no success return is reachable unless the field was assigned first — followed path-sensitively through switches, early returns and named booleans — and which lies on every success path of that Check; for container elements the test must run for every element of one non-nested range or zero-based index loop that is on every success path; and every loader that decodes a config calls its Check (directly or in a helper that always does) before a success return; a struct-valued map element copied into a local (range variable or explicit v := m[k]) whose address is handed to a callee is stored back before the next iteration; (d) error discipline — the error results of Decode/Unmarshal, *Check, condition.Build and nested *Load calls in the loaders are returned or tested, never dropped. Not covered: acceptance of every documented file (only the ADVANCED_MODE feature is tied to the docs), malformed JSON beyond absent/null fields, index-out-of-range on malformed lists, vip-to-product references; nil tests moved out of a *Check function into an unexported helper that is not itself named *Check* establish no fact (reported as unresolved dereferences); the path-sensitive search is bounded (4000 steps), beyond that the nil branch counts as not rejecting.",
 			RuleText:    "obligations = each Lookup of a basic-rule cluster name, each cross-reference loop of check(), each dereference site of an optional config value, each decode site, each error-returning loader call",
 		},
 		Run: runC13,
@@ -34,6 +34,19 @@ func init() {
 			{Name: "hash-header-required-for-one-strategy-only", File: "bfe_config/bfe_cluster_conf/cluster_conf/cluster_conf_load.go", Old: "	if *conf.HashStrategy == ClientIdOnly || *conf.HashStrategy == ClientIdPreferred {", New: "	if *conf.HashStrategy == ClientIdOnly {", Expect: "nil-deref"},
 			{Name: "gslb-retrymax-default-removed", File: "bfe_config/bfe_cluster_conf/cluster_conf/cluster_conf_load.go", Old: "	if conf.RetryMax == nil {\n		defaultRetryMax := 2\n		conf.RetryMax = &defaultRetryMax\n	}\n", New: "", Expect: "nil-deref"},
 			{Name: "gslb-retrymax-default-conditional", File: "bfe_config/bfe_cluster_conf/cluster_conf/cluster_conf_load.go", Old: "	if conf.RetryMax == nil {", New: "	if conf.RetryMax == nil && conf.HashConf != nil {", Expect: "nil-deref"},
+			// behaviour-preserving edits: the verdict must not change
+			{Name: "silent-extract-advanced-cross-reference", Silent: true, File: "bfe_route/server_data_conf.go",
+				Old: "	// check cluster_name of advanced rule in route and cluster_conf\n	for _, routeRules := range s.HostTable.productAdvancedRouteTable {\n		for _, routeRule := range routeRules {\n			if _, err := s.ClusterTable.Lookup(routeRule.ClusterName); err != nil {\n				return fmt.Errorf(\"cluster[%s] in advanced route should exist in cluster_conf\",\n					routeRule.ClusterName)\n			}\n		}\n	}\n",
+				New: "	// check cluster_name of advanced rule in route and cluster_conf\n	checkAdvanced := func() error {\n		for _, rules := range s.HostTable.productAdvancedRouteTable {\n			for _, rule := range rules {\n				_, lookupErr := s.ClusterTable.Lookup(rule.ClusterName)\n				if lookupErr == nil {\n					continue\n				}\n				return fmt.Errorf(\"cluster[%s] in advanced route should exist in cluster_conf\",\n					rule.ClusterName)\n			}\n		}\n		return nil\n	}\n	if err := checkAdvanced(); err != nil {\n		return err\n	}\n"},
+			{Name: "silent-hosttable-switch-and-named-bool", Silent: true, File: "bfe_config/bfe_route_conf/host_rule_conf/host_table_load.go",
+				Old: "	if conf.Version == nil {\n		return errors.New(\"no Version\")\n	}\n\n	if conf.Hosts == nil {\n		return errors.New(\"no Hosts\")\n	}\n\n	if conf.HostTags == nil {\n		return errors.New(\"no HostTags\")\n	}\n\n	// check config for each product\n	for product, hostTagList := range *conf.HostTags {\n		if hostTagList == nil {\n			return fmt.Errorf(\"no HostTagList for %s\", product)\n		}\n	}\n",
+				New: "	switch {\n	case conf.Version == nil:\n		return errors.New(\"no Version\")\n	case conf.Hosts == nil:\n		return errors.New(\"no Hosts\")\n	case nil == conf.HostTags:\n		return errors.New(\"no HostTags\")\n	}\n\n	// check config for each product\n	for product, hostTagList := range *conf.HostTags {\n		present := hostTagList != nil\n		if present {\n			continue\n		}\n		return fmt.Errorf(\"no HostTagList for %s\", product)\n	}\n"},
+			{Name: "silent-maxconns-named-bool", Silent: true, File: "bfe_config/bfe_cluster_conf/cluster_conf/cluster_conf_load.go",
+				Old: "	if conf.MaxConnsPerHost == nil || *conf.MaxConnsPerHost < 0 {\n",
+				New: "	unsetConns := conf.MaxConnsPerHost == nil || *conf.MaxConnsPerHost < 0\n	if unsetConns {\n"},
+			{Name: "silent-cluster-copy-explicit", Silent: true, File: "bfe_config/bfe_cluster_conf/cluster_conf/cluster_conf_load.go",
+				Old: "	for clusterName, clusterConf := range conf {\n		err := ClusterConfCheck(&clusterConf)\n		if err != nil {\n			return fmt.Errorf(\"conf for %s:%s\", clusterName, err.Error())\n		}\n		conf[clusterName] = clusterConf\n	}",
+				New: "	for clusterName := range conf {\n		checked := conf[clusterName]\n		if err := ClusterConfCheck(&checked); err != nil {\n			return fmt.Errorf(\"conf for %s:%s\", clusterName, err.Error())\n		}\n		conf[clusterName] = checked\n	}"},
 		},
 	})
 }
@@ -48,49 +61,65 @@ func nilRejecting(fns []*ssa.Function) map[*ssa.Function]map[int]bool {
 	out := map[*ssa.Function]map[int]bool{}
 	for _, fn := range fns {
 		for _, in := range allInstrs(fn) {
-			ifi, ok := in.(*ssa.If)
+			t, ok := rNilTestOf(in)
 			if !ok {
 				continue
 			}
-			b, ok := ifi.Cond.(*ssa.BinOp)
-			if !ok || b.Op != token.EQL || !isNilConst(b.Y) {
-				continue
-			}
-			p, ok := b.X.(*ssa.Parameter)
+			p, ok := t.V.(*ssa.Parameter)
 			if !ok {
 				continue
 			}
-			thenB := ifi.Block().Succs[0]
-			r, isRet := thenB.Instrs[len(thenB.Instrs)-1].(*ssa.Return)
-			if !isRet {
+			// the nil branch never reaches a success return, and the test is on every success path
+			if !t.rejectsOrDefaults() || !rOnEverySuccessPath(fn, in) {
 				continue
 			}
-			rv := core.RetVals(r)
-			if len(rv) == 0 || isNilConst(rv[len(rv)-1]) {
-				continue
-			}
-			skip := core.ReachAvoiding(fn, nil, func(x ssa.Instruction) bool { return x == in }, func(x ssa.Instruction) bool {
-				rr, isR := x.(*ssa.Return)
-				if !isR {
-					return false
+			if i := paramIndex(p); i >= 0 {
+				if out[fn] == nil {
+					out[fn] = map[int]bool{}
 				}
-				v := core.RetVals(rr)
-				return len(v) == 0 || isNilConst(v[len(v)-1])
-			})
-			if skip != nil {
-				continue
-			}
-			for i, q := range fn.Params {
-				if q == p {
-					if out[fn] == nil {
-						out[fn] = map[int]bool{}
-					}
-					out[fn][i] = true
-				}
+				out[fn][i] = true
 			}
 		}
 	}
 	return out
+}
+
+// missIsError: f returns a non-nil error wherever the value accepted by isErr is
+// non-nil; when f is a private helper of the region, each of its callers does
+// the same with f's error result, up to the region's root.
+func missIsError(rg *rRegion, f *ssa.Function, isErr func(ssa.Value) bool, depth int) bool {
+	ok := false
+	for _, r := range core.Returns(f) {
+		rv := core.RetVals(r)
+		if len(rv) >= 1 && !isNilConst(rv[len(rv)-1]) && isErrorType(rv[len(rv)-1].Type()) && rHolds(rg.p, r.Block(), rNonNil(isErr)) {
+			ok = true
+		}
+	}
+	if !ok || f == rg.root {
+		return ok
+	}
+	if depth <= 0 || len(rg.sites[f]) == 0 {
+		return false
+	}
+	n := f.Signature.Results().Len()
+	for _, s := range rg.sites[f] {
+		call, isCall := s.(*ssa.Call)
+		if !isCall {
+			return false
+		}
+		isRes := func(v ssa.Value) bool {
+			v = core.StripConv(v)
+			if n == 1 {
+				return v == ssa.Value(call)
+			}
+			ex, isEx := v.(*ssa.Extract)
+			return isEx && ex.Tuple == ssa.Value(call) && ex.Index == n-1
+		}
+		if !missIsError(rg, s.Parent(), isRes, depth-1) {
+			return false
+		}
+	}
+	return true
 }
 
 func declaredUnderConfig(t types.Type) bool {
@@ -180,34 +209,54 @@ func runC13(c *core.Ctx) {
 	if !ok {
 		c.Missing("route_rule_conf.BasicRouteRule.ClusterName")
 	} else {
+		isBasicName := func(v ssa.Value) bool { return rFieldLoad(v, cn) != nil }
+		// the value is (in either spelling or polarity) known to differ from the sentinel
+		notSentinel := func(val ssa.Value) func(core.Guard) bool {
+			same := func(v ssa.Value) bool {
+				v = core.StripConv(v)
+				return v == val || core.Render(v) == core.Render(val)
+			}
+			isAdv := func(v ssa.Value) bool { s, ok := core.ConstString(v); return ok && s == "ADVANCED_MODE" }
+			return rCmp(token.NEQ, same, isAdv)
+		}
 		n := 0
 		for _, fn := range all {
 			for _, ci := range core.Calls(fn, "bfe_route.ClusterTable.Lookup") {
 				arg := core.StripConv(ci.Common().Args[1])
-				isBasic := false
-				switch a := arg.(type) {
-				case *ssa.UnOp:
-					if fa, ok := a.X.(*ssa.FieldAddr); ok && core.FieldObj(fa.X, fa.Field) == cn {
-						isBasic = true
+				blk := ci.(ssa.Instruction).Block()
+				guarded := false
+				switch {
+				case isBasicName(arg):
+					guarded = rHolds(c.P, blk, notSentinel(arg))
+				default:
+					// the name arrives through a parameter of a private helper: every call site passes a
+					// basic rule's ClusterName, and the sentinel is excluded inside or at every site
+					par := rParamOf(arg)
+					if par == nil || par.Parent() != fn || (fn.Object() != nil && fn.Object().Exported()) {
+						continue
 					}
-				case *ssa.Field:
-					isBasic = core.FieldObj(a.X, a.Field) == cn
-				}
-				if !isBasic {
-					continue
+					sites := c.P.CallSites(fn)
+					if len(sites) == 0 {
+						continue
+					}
+					allBasic, allGuarded := true, true
+					pi := paramIndex(par)
+					for _, s := range sites {
+						a := core.StripConv(s.Common().Args[pi])
+						if !isBasicName(a) {
+							allBasic = false
+							break
+						}
+						if !rHolds(c.P, s.Block(), notSentinel(a)) {
+							allGuarded = false
+						}
+					}
+					if !allBasic {
+						continue
+					}
+					guarded = allGuarded || rHolds(c.P, blk, notSentinel(arg))
 				}
 				n++
-				guarded := core.HasGuard(ci.(ssa.Instruction).Block(), func(g core.Guard) bool {
-					b, ok := g.Cond.(*ssa.BinOp)
-					if !ok {
-						return false
-					}
-					s, isS := core.ConstString(b.Y)
-					if !isS || s != "ADVANCED_MODE" || core.Render(b.X) != core.Render(arg) {
-						return false
-					}
-					return (b.Op == token.NEQ && g.Pol) || (b.Op == token.EQL && !g.Pol)
-				})
 				c.Check("sentinel", fmt.Sprintf("%s:lookup#%d", core.FuncKey(fn), n), ci.Pos(), guarded, "a basic route rule's ClusterName is looked up as a cluster without excluding the ADVANCED_MODE sentinel: the documented configuration (basic rule -> ADVANCED_MODE) is rejected")
 			}
 		}
@@ -221,61 +270,121 @@ func runC13(c *core.Ctx) {
 		c.Missing("bfe_route.ServerDataConf.check")
 	} else {
 		c.Analysed(core.FuncKey(chk))
-		// ranges over the four tables
+		crg := rNewRegion(c.P, chk)
+		fieldNamed := func(v ssa.Value, name string) bool {
+			return fieldLoadOf(v, name) != nil
+		}
+		// ranges over the four tables (in check or its private helpers)
 		ranged := map[string]bool{}
-		core.Instrs(chk, func(in ssa.Instruction) {
+		crg.instrs(func(in ssa.Instruction) {
 			if r, ok := in.(*ssa.Range); ok {
-				ranged[core.Render(r.X)] = true
+				for _, t := range []string{"productAdvancedRouteTable", "productBasicRouteTree", "productBasicRouteTable", "hostTagTable"} {
+					if fieldNamed(r.X, t) {
+						ranged[t] = true
+					}
+				}
 			}
 		})
-		for _, t := range []string{"s.HostTable.productAdvancedRouteTable", "s.HostTable.productBasicRouteTree", "s.HostTable.productBasicRouteTable", "s.HostTable.hostTagTable"} {
-			c.Check("closure", "check:ranges:"+t[strings.LastIndex(t, ".")+1:], chk.Pos(), ranged[t], "ServerDataConf.check no longer iterates "+t+": references from that table are not cross-checked")
+		for _, t := range []string{"productAdvancedRouteTable", "productBasicRouteTree", "productBasicRouteTable", "hostTagTable"} {
+			c.Check("closure", "check:ranges:"+t, chk.Pos(), ranged[t], "ServerDataConf.check no longer iterates s.HostTable."+t+": references from that table are not cross-checked")
 		}
-		// cluster lookups: unconditional apart from loop conditions and the sentinel
+		// a guard that only rejects: the edge not taken cannot reach a success return
+		rejectOnly := func(g core.Guard) bool {
+			if g.If == nil {
+				return false
+			}
+			other := g.If.Block().Succs[0]
+			if g.Pol {
+				other = g.If.Block().Succs[1]
+			}
+			w := &rPaths{}
+			env := map[ssa.Value]bool{}
+			rSetBool(env, g.Cond, !g.Pol)
+			return !w.reach(other, 0, env, nil, rIsSuccessReturn)
+		}
+		isSentinelTest := func(g core.Guard) bool {
+			_, x, y, ok := g.Cmp()
+			if !ok {
+				return false
+			}
+			sx, okx := core.ConstString(x)
+			sy, oky := core.ConstString(y)
+			return (okx && sx == "ADVANCED_MODE") || (oky && sy == "ADVANCED_MODE")
+		}
+		// cluster lookups: unconditional apart from loop conditions, the sentinel and early rejects
 		nl := 0
-		chkLoopConds := core.LoopConds(chk)
-		for _, ci := range core.Calls(chk, "bfe_route.ClusterTable.Lookup") {
+		loopConds := map[*ssa.Function]map[ssa.Value]bool{}
+		for _, ci := range crg.calls("bfe_route.ClusterTable.Lookup") {
 			nl++
 			var extra []string
-			for _, g := range core.GuardsAt(ci.(ssa.Instruction).Block()) {
-				s := g.Str
-				if chkLoopConds[g.Cond] || strings.Contains(s, "ADVANCED_MODE") {
+			for _, g := range c.P.GuardsAtCtx(ci.(ssa.Instruction).Block()) {
+				if g.If != nil {
+					f := g.If.Block().Parent()
+					if loopConds[f] == nil {
+						loopConds[f] = core.LoopConds(f)
+					}
+					if loopConds[f][g.Cond] {
+						continue
+					}
+				}
+				if isSentinelTest(g) || rejectOnly(g) {
 					continue
 				}
-				extra = append(extra, s)
+				extra = append(extra, g.Str)
 			}
 			c.Check("closure", fmt.Sprintf("check:lookup#%d:unconditional", nl), ci.Pos(), len(extra) == 0, "the cluster cross-reference is skipped under "+strings.Join(extra, " && ")+": some accepted rules may name clusters that do not exist")
 			// a miss returns an error
 			call, _ := ci.(*ssa.Call)
 			okErr := false
 			if call != nil {
-				for _, r := range core.Returns(chk) {
-					rv := core.RetVals(r)
-					if len(rv) == 1 && !isNilConst(rv[0]) && core.HasGuard(r.Block(), func(g core.Guard) bool {
-						v, nonNil, ok := nilTestOf(g)
-						if !ok || !nonNil {
-							return false
-						}
-						ex, isEx := v.(*ssa.Extract)
-						return isEx && ex.Tuple == ssa.Value(call) && ex.Index == 1
-					}) {
-						okErr = true
-					}
+				isErrOfCall := func(v ssa.Value) bool {
+					ex, isEx := core.StripConv(v).(*ssa.Extract)
+					return isEx && ex.Tuple == ssa.Value(call) && ex.Index == 1
 				}
+				okErr = missIsError(crg, call.Parent(), isErrOfCall, 3)
 			}
 			c.Check("closure", fmt.Sprintf("check:lookup#%d:miss-is-error", nl), ci.Pos(), okErr, "a failed cluster lookup does not make check() return an error")
 		}
 		if nl < 2 {
 			c.Check("closure", "check:lookups", chk.Pos(), false, fmt.Sprintf("expected cluster lookups for advanced and basic rules, found %d", nl))
 		}
-		// product membership: `find` flag false => error
+		// product membership: for the advanced table and the basic tree, a product that equals no
+		// hostTagTable entry makes check() return an error. The membership test is recognised by role:
+		// a flag (or the result of a private helper) that is true only where the product was compared
+		// equal to an element of a range over hostTagTable.
 		nf := 0
-		for _, r := range core.Returns(chk) {
-			rv := core.RetVals(r)
-			if len(rv) == 1 && !isNilConst(rv[0]) && core.HasGuard(r.Block(), func(g core.Guard) bool {
-				phi, ok := g.Cond.(*ssa.Phi)
-				return ok && !g.Pol && phi.Comment == "find"
-			}) {
+		for _, tbl := range []string{"productAdvancedRouteTable", "productBasicRouteTree"} {
+			found := false
+			for _, r := range core.Returns(chk) {
+				rv := core.RetVals(r)
+				if len(rv) != 1 || isNilConst(rv[0]) {
+					continue
+				}
+				// inside the range over tbl
+				var key ssa.Value
+				for _, g := range core.GuardsAt(r.Block()) {
+					if ex, ok := g.Cond.(*ssa.Extract); ok && g.Pol && ex.Index == 0 {
+						if nx, ok := ex.Tuple.(*ssa.Next); ok {
+							if rg, ok := nx.Iter.(*ssa.Range); ok && fieldNamed(rg.X, tbl) {
+								key = nx
+							}
+						}
+					}
+				}
+				if key == nil {
+					continue
+				}
+				isKey := func(v ssa.Value) bool {
+					ex, ok := core.StripConv(v).(*ssa.Extract)
+					return ok && ex.Tuple == key && ex.Index == 1
+				}
+				if rHolds(c.P, r.Block(), func(g core.Guard) bool {
+					return !g.Pol && isMembershipFlag(crg, g.Cond, isKey, "hostTagTable", 3)
+				}) {
+					found = true
+				}
+			}
+			if found {
 				nf++
 			}
 		}
@@ -286,21 +395,25 @@ func runC13(c *core.Ctx) {
 	} else {
 		c.Analysed(core.FuncKey(ld))
 		calls := core.Calls(ld, "bfe_route.ServerDataConf.check")
-		ok := len(calls) == 1
-		if ok {
-			call := calls[0].(ssa.Instruction)
+		ok := false
+		for _, cc := range calls {
+			call, isCall := cc.(*ssa.Call)
+			if !isCall {
+				continue
+			}
+			good := true
 			for _, r := range core.Returns(ld) {
 				rv := core.RetVals(r)
-				if !isNilConst(rv[1]) {
+				if !isNilConst(rv[len(rv)-1]) {
 					continue
 				}
 				// success return: dominated by check() and guarded by its error being nil
-				if !core.Dominates(call, r) || !core.HasGuard(r.Block(), func(g core.Guard) bool {
-					v, nonNil, ok := nilTestOf(g)
-					return ok && !nonNil && v == ssa.Value(call.(*ssa.Call))
-				}) {
-					ok = false
+				if !core.Dominates(call, r) || !rHolds(c.P, r.Block(), rCmp(token.EQL, func(v ssa.Value) bool { return core.StripConv(v) == ssa.Value(call) }, isNilConst)) {
+					good = false
 				}
+			}
+			if good {
+				ok = true
 			}
 		}
 		c.Check("closure", "LoadServerDataConf:check-gates-success", ld.Pos(), ok, "LoadServerDataConf must return a conf only after ServerDataConf.check() returned nil")
@@ -333,7 +446,19 @@ func runC13(c *core.Ctx) {
 			for _, ci := range core.AllCalls(it) {
 				if strings.HasSuffix(core.CalleeKey(ci.Common()), "pathTrees.insert") {
 					a := ci.Common().Args[len(ci.Common().Args)-1]
-					okArg = core.Render(a) == "ruleConf.ClusterName"
+					// the (dereferenced) ClusterName field of Insert's own parameter, whatever it is called
+					v := core.StripConv(a)
+					for {
+						u, isLoad := v.(*ssa.UnOp)
+						if !isLoad || u.Op != token.MUL {
+							break
+						}
+						v = u.X
+					}
+					if fa, isFA := v.(*ssa.FieldAddr); isFA && core.FieldObj(fa.X, fa.Field) != nil && core.FieldObj(fa.X, fa.Field).Name() == "ClusterName" {
+						par := rParamOf(fa.X)
+						okArg = par != nil && par.Parent() == it
+					}
 				}
 			}
 			c.Check("basic-rule-agree", "BasicRouteRuleTree.Insert:cluster", it.Pos(), okArg, "the tree must store the rule file's ClusterName itself")
@@ -347,71 +472,78 @@ func runC13(c *core.Ctx) {
 		if !strings.HasPrefix(core.FuncPkgRel(fn), "bfe_config/") {
 			continue
 		}
-		for _, in := range allInstrs(fn) {
-			nx, ok := in.(*ssa.Next)
+		// a struct-valued map element copied into an addressable local (the range value variable or
+		// an explicit `v := m[k]`), whose address is passed to a callee
+		for _, x := range allInstrs(fn) {
+			st, ok := x.(*ssa.Store)
 			if !ok {
 				continue
 			}
-			rg, ok := nx.Iter.(*ssa.Range)
+			al, ok := st.Addr.(*ssa.Alloc)
 			if !ok {
 				continue
 			}
-			mt, ok := rg.X.Type().Underlying().(*types.Map)
+			var m ssa.Value          // the map
+			var next ssa.Instruction // start of the next iteration, if the copy is a range variable
+			switch v := st.Val.(type) {
+			case *ssa.Extract:
+				switch t := v.Tuple.(type) {
+				case *ssa.Next:
+					if rg, isRg := t.Iter.(*ssa.Range); isRg && v.Index == 2 {
+						m, next = rg.X, t
+					}
+				case *ssa.Lookup:
+					if v.Index == 0 {
+						m = t.X
+					}
+				}
+			case *ssa.Lookup:
+				m = v.X
+			}
+			if m == nil {
+				continue
+			}
+			mt, ok := m.Type().Underlying().(*types.Map)
 			if !ok {
 				continue
 			}
 			if _, isStruct := mt.Elem().Underlying().(*types.Struct); !isStruct {
 				continue
 			}
-			// the value copy is spilled to an Alloc whose address is passed to a call
-			for _, x := range allInstrs(fn) {
-				st, ok := x.(*ssa.Store)
-				if !ok {
-					continue
-				}
-				ex, ok := st.Val.(*ssa.Extract)
-				if !ok || ex.Tuple != ssa.Value(nx) || ex.Index != 2 {
-					continue
-				}
-				al, ok := st.Addr.(*ssa.Alloc)
-				if !ok {
-					continue
-				}
-				passed := false
-				for _, r := range *al.Referrers() {
-					if ci, isCall := r.(ssa.CallInstruction); isCall {
-						for _, a := range ci.Common().Args {
-							if a == ssa.Value(al) {
-								passed = true
-							}
+			passed := false
+			for _, r := range *al.Referrers() {
+				if ci, isCall := r.(ssa.CallInstruction); isCall {
+					for _, a := range ci.Common().Args {
+						if a == ssa.Value(al) {
+							passed = true
 						}
 					}
 				}
-				if !passed {
-					continue
-				}
-				nwb++
-				// on every path from the spill to the next iteration / a success return the copy is stored back
-				bad := core.ReachAvoiding(fn, st, func(y ssa.Instruction) bool {
-					mu, ok := y.(*ssa.MapUpdate)
-					if !ok || core.Render(mu.Map) != core.Render(rg.X) {
-						return false
-					}
-					u, ok := mu.Value.(*ssa.UnOp)
-					return ok && u.X == ssa.Value(al)
-				}, func(y ssa.Instruction) bool {
-					if y == ssa.Instruction(nx) {
-						return true
-					}
-					r, isR := y.(*ssa.Return)
-					if !isR {
-						return false
-					}
-					rv := core.RetVals(r)
-					return len(rv) == 0 || isNilConst(rv[len(rv)-1])
-				})
-				c.Check("copy-write-back", core.FuncKey(fn), st.Pos(), bad == nil, core.FuncKey(fn)+" passes the address of the range copy of a "+core.TypeStr(rg.X.Type())+" element to a callee (which may assign defaults) and can continue without storing the copy back into the map: defaults for omitted sections are lost and later dereferences crash")
 			}
+			if !passed {
+				continue
+			}
+			nwb++
+			// the enclosing loop's header starts the next iteration when the copy is not a range variable
+			var hdr ssa.Instruction
+			if l := rLoopOf(core.Loops(fn), st.Block()); l != nil && len(l.Header.Instrs) > 0 {
+				hdr = l.Header.Instrs[0]
+			}
+			// on every path from the copy to the next iteration / a success return the copy is stored back
+			bad := core.ReachAvoiding(fn, st, func(y ssa.Instruction) bool {
+				mu, ok := y.(*ssa.MapUpdate)
+				if !ok || (mu.Map != m && core.Render(mu.Map) != core.Render(m)) {
+					return false
+				}
+				u, ok := mu.Value.(*ssa.UnOp)
+				return ok && u.X == ssa.Value(al)
+			}, func(y ssa.Instruction) bool {
+				if (next != nil && y == next) || (hdr != nil && y == hdr) {
+					return true
+				}
+				return rIsSuccessReturn(y)
+			})
+			c.Check("copy-write-back", core.FuncKey(fn), st.Pos(), bad == nil, core.FuncKey(fn)+" passes the address of a copy of a "+core.TypeStr(m.Type())+" element to a callee (which may assign defaults) and can continue without storing the copy back into the map: defaults for omitted sections are lost and later dereferences crash")
 		}
 	}
 	if nwb == 0 {
@@ -428,43 +560,27 @@ func runC13(c *core.Ctx) {
 		if !strings.HasPrefix(rel, "bfe_config/") || !strings.Contains(fn.Name(), "Check") {
 			continue
 		}
+		var loops []*core.Loop
 		for _, in := range allInstrs(fn) {
-			ifi, ok := in.(*ssa.If)
+			t, ok := rNilTestOf(in)
 			if !ok {
 				continue
 			}
-			b, ok := ifi.Cond.(*ssa.BinOp)
-			if !ok || b.Op != token.EQL || !isNilConst(b.Y) {
-				continue
-			}
-			ov, ok := classifyOpt(b.X)
+			ov, ok := classifyOpt(t.V)
 			if !ok {
 				continue
 			}
-			thenB := ifi.Block().Succs[0]
-			// the nil branch returns an error or assigns the value
-			handled := false
-			if r, isRet := thenB.Instrs[len(thenB.Instrs)-1].(*ssa.Return); isRet {
-				rv := core.RetVals(r)
-				if len(rv) > 0 && !isNilConst(rv[len(rv)-1]) {
-					handled = true
-				}
-			}
-			for _, ti := range thenB.Instrs {
-				if st, isSt := ti.(*ssa.Store); isSt {
-					if u, isU := b.X.(*ssa.UnOp); isU && core.Render(st.Addr) == core.Render(u.X) {
-						handled = true
-					}
-				}
-			}
-			if !handled {
+			// once the value is found nil the file is rejected or a default is assigned, whatever
+			// the shape of the code between the test and the return (switch, named boolean, ...)
+			if !t.rejectsOrDefaults() {
 				// a nil test of an optional value in a Check function that neither rejects nor
 				// assigns in its nil branch is a partial default (e.g. "x == nil && other" guarding
 				// the assignment): the value may stay nil although the function looks like it
 				// normalises it. Users outside the loader packages rely on the normalisation.
-				if ov.kind == "field" {
+				// (`if x != nil { validate(x) }` is the ordinary optional-section idiom, not a default.)
+				if ov.kind == "field" && t.EqlForm {
 					nPartial[core.FuncKey(fn)+":"+ov.key]++
-					c.Check("nil-deref", fmt.Sprintf("%s:%s:nil-branch#%d", core.FuncKey(fn), ov.key, nPartial[core.FuncKey(fn)+":"+ov.key]), in.Pos(), false,
+					c.Check("nil-deref", fmt.Sprintf("%s:%s:nil-branch#%d", core.FuncKey(fn), ov.key, nPartial[core.FuncKey(fn)+":"+ov.key]), t.If.Cond.Pos(), false,
 						"the nil test of optional config value "+ov.key+" in "+core.FuncKey(fn)+" neither rejects the file nor assigns a default in its nil branch (the branch is conditional on something else): the value can stay nil after a successful check and is dereferenced by its users")
 				}
 				continue
@@ -473,56 +589,16 @@ func runC13(c *core.Ctx) {
 			switch ov.kind {
 			case "field":
 				// on every success path of the Check
-				skip := core.ReachAvoiding(fn, nil, func(x ssa.Instruction) bool { return x == in }, func(x ssa.Instruction) bool {
-					r, isR := x.(*ssa.Return)
-					if !isR {
-						return false
-					}
-					rv := core.RetVals(r)
-					return len(rv) == 0 || isNilConst(rv[len(rv)-1])
-				})
-				if skip == nil {
+				if rOnEverySuccessPath(fn, in) {
 					fieldFact[ov.key] = core.FuncKey(fn)
 				}
 			case "elem":
-				// the test is guarded only by the loop's own conditions, and the loop is on every success path
-				onlyLoop := true
-				for _, g := range core.GuardsAt(ifi.Block()) {
-					if !strings.Contains(g.Str, "next(range(") && !strings.Contains(g.Str, "rangeindex") {
-						// earlier reject-guards (negative polarity early exits) are fine
-						if !strings.HasPrefix(g.Str, "!") {
-							onlyLoop = false
-						}
-					}
+				// executed for every element of one loop that is on every success path
+				if loops == nil {
+					loops = core.Loops(fn)
 				}
-				if len(core.SkipFilters(ifi.Block())) > 0 {
-					onlyLoop = false // an element filter (continue) in front of the test
-				}
-				var rng ssa.Instruction
-				if ex, isEx := b.X.(*ssa.Extract); isEx {
-					if nx, isNx := ex.Tuple.(*ssa.Next); isNx {
-						rng, _ = nx.Iter.(*ssa.Range)
-					}
-				}
-				loopOnPath := true
-				if rng != nil {
-					skip := core.ReachAvoiding(fn, nil, func(x ssa.Instruction) bool { return x == rng }, func(x ssa.Instruction) bool {
-						r, isR := x.(*ssa.Return)
-						if !isR {
-							return false
-						}
-						rv := core.RetVals(r)
-						return len(rv) == 0 || isNilConst(rv[len(rv)-1])
-					})
-					loopOnPath = skip == nil
-					// the loop must not be nested in another loop that can be skipped or left early
-					for _, l := range core.Loops(fn) {
-						if l.Body[rng.Block()] {
-							loopOnPath = false
-						}
-					}
-				}
-				if onlyLoop && loopOnPath {
+				blk := t.If.Block()
+				if l := rLoopOf(loops, blk); l != nil && rUnconditionalInLoop(fn, blk) && rElemCoversAll(l, t.V) {
 					elemFact[ov.key] = core.FuncKey(fn)
 				}
 			}
@@ -548,23 +624,9 @@ func runC13(c *core.Ctx) {
 				if !ok || ov.kind != "elem" {
 					continue
 				}
-				// unconditional within exactly one (non-nested) loop
-				onlyLoop := true
-				for _, g := range core.GuardsAt(ci.(ssa.Instruction).Block()) {
-					if !strings.Contains(g.Str, "next(range(") && !strings.Contains(g.Str, "rangeindex") && !strings.HasPrefix(g.Str, "!") {
-						onlyLoop = false
-					}
-				}
-				if len(core.SkipFilters(ci.(ssa.Instruction).Block())) > 0 {
-					onlyLoop = false
-				}
-				depth := 0
-				for _, l := range loops {
-					if l.Body[ci.(ssa.Instruction).Block()] {
-						depth++
-					}
-				}
-				if onlyLoop && depth == 1 {
+				// unconditional within exactly one (non-nested) loop over all elements
+				blk := ci.(ssa.Instruction).Block()
+				if l := rLoopOf(loops, blk); l != nil && rUnconditionalInLoop(fn, blk) && rElemCoversAll(l, a) {
 					elemFact[ov.key] = core.FuncKey(fn) + " via " + core.FuncKey(sc)
 				}
 			}
@@ -607,10 +669,9 @@ func runC13(c *core.Ctx) {
 			}
 			nSites++
 			c.Analysed(k)
-			local := core.HasGuard(in.Block(), func(g core.Guard) bool {
-				v, nonNil, ok := nilTestOf(g)
-				return ok && nonNil && core.Render(v) == core.Render(p)
-			})
+			pStr := core.Render(p)
+			sameP := func(v ssa.Value) bool { return v == p || core.Render(v) == pStr }
+			local := rHolds(c.P, in.Block(), rNonNil(sameP))
 			fact := ""
 			if ov.kind == "field" {
 				fact = fieldFact[ov.key]
@@ -620,11 +681,7 @@ func runC13(c *core.Ctx) {
 			// a Check function testing the very field it dereferences later is covered by dominance of its own test
 			if !local && fact == "" && strings.Contains(fn.Name(), "Check") {
 				for _, x := range allInstrs(fn) {
-					ifi, isIf := x.(*ssa.If)
-					if !isIf {
-						continue
-					}
-					if b, isB := ifi.Cond.(*ssa.BinOp); isB && b.Op == token.EQL && isNilConst(b.Y) && core.Render(b.X) == core.Render(p) && core.Dominates(ifi, in) {
+					if t, isT := rNilTestOf(x); isT && sameP(t.V) && core.Dominates(t.If, in) {
 						local = true
 					}
 				}
@@ -664,7 +721,7 @@ func runC13(c *core.Ctx) {
 			}
 			nDec++
 			dec := ci.(ssa.Instruction)
-			bad := core.ReachAvoiding(fn, dec, func(x ssa.Instruction) bool {
+			bad := core.ReachAvoiding(fn, dec, core.LiftMust(func(x ssa.Instruction) bool {
 				cc, ok := x.(ssa.CallInstruction)
 				if !ok {
 					return false
@@ -673,7 +730,7 @@ func runC13(c *core.Ctx) {
 				base := n[strings.LastIndex(n, ".")+1:]
 				// route_rule_conf validates while converting the file form (convert -> convertBasicRule/convertAdvancedRule)
 				return strings.Contains(base, "Check") || strings.Contains(base, "check") || n == "bfe_config/bfe_route_conf/route_rule_conf.convert"
-			}, func(x ssa.Instruction) bool {
+			}, 2), func(x ssa.Instruction) bool {
 				r, isR := x.(*ssa.Return)
 				if !isR {
 					return false
@@ -775,17 +832,22 @@ func callersEstablish(c *core.Ctx, all []*ssa.Function, fn *ssa.Function, p ssa.
 	return sites > 0
 }
 
-// discriminatorTest recognises "*<optional field D> == K" (K constant) and returns D's key and K.
-func discriminatorTest(v ssa.Value) (string, string, bool) {
-	b, ok := v.(*ssa.BinOp)
-	if !ok || b.Op != token.EQL {
+// discriminatorTest recognises a guard establishing "*<optional field D> == K"
+// (K constant; either operand order, either branch polarity) and returns D's key and K.
+func discriminatorTest(g core.Guard) (string, string, bool) {
+	op, x, y, ok := g.Cmp()
+	if !ok || op != token.EQL {
 		return "", "", false
 	}
-	k, ok := b.Y.(*ssa.Const)
-	if !ok || k.Value == nil {
+	k, isK := y.(*ssa.Const)
+	if !isK {
+		x, y = y, x
+		k, isK = y.(*ssa.Const)
+	}
+	if !isK || k.Value == nil {
 		return "", "", false
 	}
-	ld, ok := b.X.(*ssa.UnOp)
+	ld, ok := x.(*ssa.UnOp)
 	if !ok || ld.Op != token.MUL {
 		return "", "", false
 	}
@@ -799,15 +861,13 @@ func discriminatorTest(v ssa.Value) (string, string, bool) {
 // correlatedFact: the dereference `in` of optional field F is guarded by "*D == K" for a
 // sibling discriminator field D, and a *Check function rejects a nil F on every success path
 // that follows its own "*D == K" test (conditionally required value, e.g. HashHeader is
-// required exactly for the header-based hash strategies).
+// required exactly for the header-based hash strategies). The paths are followed with the
+// truth values they fix, so the test may be spelled with named booleans.
 func correlatedFact(all []*ssa.Function, in ssa.Instruction, f optValue) string {
 	type dk struct{ d, k string }
 	var have []dk
 	for _, g := range core.GuardsAt(in.Block()) {
-		if !g.Pol {
-			continue
-		}
-		if d, k, ok := discriminatorTest(g.Cond); ok {
+		if d, k, ok := discriminatorTest(g); ok {
 			have = append(have, dk{d, k})
 		}
 	}
@@ -818,60 +878,57 @@ func correlatedFact(all []*ssa.Function, in ssa.Instruction, f optValue) string 
 		if !strings.HasPrefix(core.FuncPkgRel(fn), "bfe_config/") || !strings.Contains(fn.Name(), "Check") {
 			continue
 		}
-		// the rejecting nil test of F in fn
-		var nilTest ssa.Instruction
+		// the rejecting nil tests of F in fn
+		nilTests := map[ssa.Instruction]bool{}
 		for _, x := range allInstrs(fn) {
-			ifi, ok := x.(*ssa.If)
+			t, ok := rNilTestOf(x)
 			if !ok {
 				continue
 			}
-			b, ok := ifi.Cond.(*ssa.BinOp)
-			if !ok || b.Op != token.EQL || !isNilConst(b.Y) {
-				continue
-			}
-			ov, ok := classifyOpt(b.X)
+			ov, ok := classifyOpt(t.V)
 			if !ok || ov.kind != "field" || ov.key != f.key {
 				continue
 			}
-			thenB := ifi.Block().Succs[0]
-			if r, isRet := thenB.Instrs[len(thenB.Instrs)-1].(*ssa.Return); isRet {
-				rv := core.RetVals(r)
-				if len(rv) > 0 && !isNilConst(rv[len(rv)-1]) {
-					nilTest = x
-				}
+			if t.rejectsOrDefaults() {
+				nilTests[x] = true
 			}
 		}
-		if nilTest == nil {
+		if len(nilTests) == 0 {
 			continue
 		}
 		for _, h := range have {
 			for _, x := range allInstrs(fn) {
 				ifi, ok := x.(*ssa.If)
-				if !ok {
+				if !ok || len(ifi.Block().Succs) != 2 {
 					continue
 				}
-				d, k, ok := discriminatorTest(ifi.Cond)
-				if !ok || d != h.d || k != h.k {
-					continue
-				}
-				tb := ifi.Block().Succs[0]
-				if len(tb.Instrs) == 0 {
-					continue
-				}
-				// from the true edge, no success return is reachable without executing the nil test
-				if tb.Instrs[0] == nilTest {
-					return "required when " + h.d + " == " + h.k + " (" + core.FuncKey(fn) + ")"
-				}
-				esc := core.ReachAvoiding(fn, tb.Instrs[0], func(y ssa.Instruction) bool { return y == nilTest }, func(y ssa.Instruction) bool {
-					r, isR := y.(*ssa.Return)
-					if !isR {
-						return false
+				for e := 0; e < 2; e++ {
+					d, k, ok := discriminatorTest(rMkGuard(ifi.Cond, e == 0))
+					if !ok || d != h.d || k != h.k {
+						continue
 					}
-					rv := core.RetVals(r)
-					return len(rv) == 0 || isNilConst(rv[len(rv)-1])
-				})
-				if esc == nil {
-					return "required when " + h.d + " == " + h.k + " (" + core.FuncKey(fn) + ")"
+					// from the edge on which *D == K holds, no success return is reachable without executing a nil test of F
+					tb := ifi.Block().Succs[e]
+					env := map[ssa.Value]bool{}
+					rSetBool(env, ifi.Cond, e == 0)
+					for j, p := range tb.Preds {
+						if p != ifi.Block() {
+							continue
+						}
+						for _, pin := range tb.Instrs {
+							phi, isPhi := pin.(*ssa.Phi)
+							if !isPhi {
+								break
+							}
+							if v, kn := rEvalBool(phi.Edges[j], env); kn {
+								env[phi] = v
+							}
+						}
+					}
+					w := &rPaths{}
+					if !w.reach(tb, 0, env, func(y ssa.Instruction) bool { return nilTests[y] }, rIsSuccessReturn) {
+						return "required when " + h.d + " == " + h.k + " (" + core.FuncKey(fn) + ")"
+					}
 				}
 			}
 		}
